@@ -5,6 +5,7 @@ import (
 	"fmt"
 	"path/filepath"
 	"sync"
+	"time"
 
 	"verifharness/internal/dbx"
 	"verifharness/internal/rt"
@@ -14,7 +15,7 @@ import (
 func init() {
 	p := Registry["C12"]
 	p.Roles["rotation"] = Role{N: func(t string) int { return tierN(t, 4, 48) }, Case: c12Rotation}
-	p.Rule += " Role rotation: 8-32 goroutines write files through Create at the same time while the content directories fill up and are replaced (limit 100 entries, one or two roots, inline and gRPC; 600-2400 files per case): every Close must return (watchdog + goroutine dumps otherwise), every file whose Close returned nil must read back as written."
+	p.Rule += " Role rotation: 8-32 goroutines write files through Create at the same time while the content directories fill up and are replaced (limit 100 entries, one or two roots, inline and gRPC; 600-2400 files per case), the scheduled collector runs every 0.2-1 ms in two cases of three and another client commits transactions all the time: every Close must return (watchdog + goroutine dumps otherwise), every file whose Close returned nil must read back as written."
 }
 
 func c12Rotation(tier string, seed int64, idx int, scratch string) rt.CaseResult {
@@ -23,7 +24,7 @@ func c12Rotation(tier string, seed int64, idx int, scratch string) rt.CaseResult
 	if idx%2 == 1 {
 		mode = dbx.Grpc
 	}
-	env, err := dbx.Open(dbx.Options{Mode: mode, Dir: filepath.Join(scratch, "db"), Roots: 1 + idx/2%2, MaxDirCount: 100, MaxDirExplicit: true, NumWorkers: 2 + idx%3})
+	env, err := dbx.Open(dbx.Options{Mode: mode, Dir: filepath.Join(scratch, "db"), Roots: 1 + idx/2%2, MaxDirCount: 100, MaxDirExplicit: true, NumWorkers: 2 + idx%3, GCPeriod: []time.Duration{time.Millisecond, time.Hour, 200 * time.Microsecond}[idx%3]})
 	if err != nil {
 		c.Violate("open-failed", err.Error(), nil)
 		return c
@@ -34,6 +35,25 @@ func c12Rotation(tier string, seed int64, idx int, scratch string) rt.CaseResult
 	replay := map[string]any{"seed": seed, "case": idx, "mode": modeName(mode), "writers": writers, "files_per_writer": per, "roots": 1 + idx/2%2}
 	var mu sync.Mutex
 	var wg sync.WaitGroup
+	// a client that keeps overwriting and committing through transactions of its own while the files are written
+	stopCommitter := make(chan struct{})
+	var cg sync.WaitGroup
+	cg.Add(1)
+	go func() {
+		defer cg.Done()
+		for i := 0; ; i++ {
+			select {
+			case <-stopCommitter:
+				return
+			default:
+			}
+			if tx, err := env.DB.Begin(ctxBg); err == nil {
+				tx.Set(ctxBg, "committer", []byte(fmt.Sprint(i)))
+				tx.Commit(ctxBg)
+			}
+		}
+	}()
+	defer func() { close(stopCommitter); cg.Wait() }()
 	for w := 0; w < writers; w++ {
 		wg.Add(1)
 		go func(w int) {
